@@ -184,6 +184,25 @@ def run(ctx: Ctx):
     # ---------------------------------------------------------------- R08.9 calendar answers are not remembered under a lossy key
     from .c02 import memo_rule
     memo_rule(ctx, "R08.9")
+    # ---------------------------------------------------------------- R08.10 a deadline inside a slot (known finding F49)
+    # forward mode keeps the offset of a mid-slot bound (slotStartOffset: `earliest_start > slot_start`); the backward walk
+    # starts at dateToIdx(deadline) - 1 whatever the position of the deadline inside its slot, so the part of the deadline's
+    # slot before the deadline is never offered to the task
+    from .common import enclosing_ifs as _ei2
+    bwd_inits = [n for n in own_nodes(sched) if isinstance(n, ast.Assign) and norm(n.targets[0]) == "self.currentSlotIdx"
+                 and any(norm(i.test) == "forward" and b == "F" for (i, b) in _ei2(n, sched.node))
+                 and "dateToIdx" in norm(n.value)]
+    if not bwd_inits:
+        raise AnchorMissing("TaskScenario.schedule: backward cursor initialisations not found")
+    aligned_aware = [c for c in own_nodes(sched) if isinstance(c, ast.Compare) and "idxToDate" in norm(c)
+                     and any(norm(i.test) == "forward" and b == "F" for (i, b) in _ei2(c, sched.node))
+                     and any(w in norm(c) for w in ("latest_end", "end_date"))]
+    ctx.ob("R08.10", f"{sched.qual}: backward walk distinguishes a deadline inside a slot ({len(bwd_inits)} cursor initialisations)", (sched, bwd_inits[0]),
+           bool(aligned_aware),
+           "the slot that contains the deadline is offered up to the deadline" if aligned_aware else
+           "the backward cursor always starts one slot before the slot that contains the deadline: when the deadline lies inside a slot "
+           "(successor starting at 15:30) the free part of that slot before the deadline stays unused",
+           key="R08.10|TaskScenario.schedule|backward mid-slot deadline")
     # ---------------------------------------------------------------- R08.6 task identity
     from .common import local_id_identity_rule
     local_id_identity_rule(ctx, "R08.6", ("core/project.py", "core/task_scenario.py", "core/task.py"),
